@@ -27,6 +27,7 @@ EXPLANATION = (
     ' (R4, round 4) the validators of graphutils are not memoised (a graph hashes by identity); (R1) validation sites are canonicalised with store forwarding (validating a parameter before it is stored = validating the attribute afterwards), `a and (b or c)` = nested ifs, `a and any(Q)` = loop with raise.'
     ' (R4, hunt 4) the non-integral branch of the conservation verdict uses a tolerance scaled by math.ulp of the sums (a fixed relative tolerance accepts whole units at 3e9).'
     ' (R6, hunt 5) the tolerance check of SolverWrapper rejects NaN; the lower-bound helpers of MinFlowDecomp, which run before any k-model validated the input, return no bound for flow values that are not >= 0 and select window constraints by tuple-guarded edge membership (ValueError from the k-model instead of a bare Exception / TypeError).'
+    " (R6, hunt 6) the caller's k reaches solver rows as int(k); the guards of the lower-bound helpers are evaluated on nan / inf / -inf / -1; int() is applied to finite flow values only."
 )
 DECIDED = ["each documented domain violation has a ValueError rejection on every completing path", "delegated checks are always invoked",
            "exception type", "wrappers forward what the sub-model must validate"]
